@@ -93,7 +93,7 @@ def cells_chunk(task):
 
 def n1_task(bx):
     lo, up = box(bx, 1)
-    ev = Evolvent(lo, up, 1, 10)
+    ev = Evolvent(np.array(lo, dtype=np.double), np.array(up, dtype=np.double), 1, 10)
     msgs = []
     K = 1 << 10
     side = up[0] - lo[0]
@@ -106,7 +106,10 @@ def n1_task(bx):
         tolx = 4 * math.ulp(1.0) + 4 * math.ulp(scale) / side
         if abs(bx_ - x) > tolx:
             msgs.append(f"N=1 box={bx}: GetInverseImage({y!r}) = {bx_!r}, affine map gives {x!r}")
-        img = float(ev.GetImage(x)[0])
+        arr = ev.GetImage(x)
+        img = float(arr[0])
+        if i in (0, 1, K // 2, K) and arr.flags.writeable:
+            arr[...] = 777.0       # the caller uses the array it got back as scratch space
         back = float(ev.GetPreimages(np.array([img])))
         if abs(back - x) > tolx:
             msgs.append(f"N=1 box={bx}: inverse(image({x!r})) = {back!r}")
